@@ -7,6 +7,14 @@ NOTES = ("All checks: bin/check <id>. Each run regenerates coq/Gen from /repo, r
          "Known findings: KNOWN_FINDINGS.txt.")
 NOT_APPLICABLE = {}
 CLAIMED = {
+    "C15": {
+        "text": "Theorems (for every field-type universe and type identity): structs identical ignoring tags have the same shape hash and the same "
+                "obfuscated field names under every configuration; tags, declaring package and type-argument substitution never change the hash. "
+                "Tied by compiling /repo's bundled hasher unmodified against the model on generated multi-package struct sets (with go/types' own "
+                "IdenticalIgnoreTags as the spec), by black-box field names through `garble map`, and by a real conversion program.",
+        "note": "Trusted: Coq kernel; go/types.IdenticalIgnoreTags; harness main file; stub go; one real build. No axioms.",
+        "technique": "Coq proof over hand model of the struct hash + in-Coq correspondence with the unmodified bundled_typeutil.go + black-box garble map + e2e conversions",
+    },
     "C12": {
         "text": "Theorems: seeded names/field names are functions of (seed, path/shape, name) only; the seeded SHA input is injective in (path, seed, "
                 "name); the unseeded salt input is injective in (Go action id, garble binary id, GOGARBLE, flag combination) under the no-space "
